@@ -224,7 +224,7 @@ def run_groups(prop, groups, tier, seed, props_filter=None, ll2c_opts=None, work
             keep = sorted(fns.keys())
             jobs = []
             for i, n in enumerate(targets):
-                job = {"target": n, "out": os.path.join(wd, "%s_%04d.c" % (gname, i)), "opts": ll2c_opts or {}}
+                job = {"target": n, "out": os.path.join(wd, "%s_%04d.c" % (gname, i)), "opts": dict({"align_asserts": True}, **(ll2c_opts or {}))}
                 if fns[n].row.inline_ops:
                     job["unkeep"] = [m for m, g in fns.items() if g.op in fns[n].row.inline_ops and m != n]
                 jobs.append(job)
